@@ -21,6 +21,31 @@ class Unfoldable(Exception):
     pass
 
 
+class Captured(Exception):
+    """Folder.capture_returns: the return statement reached, with the environment at that point"""
+    def __init__(self, node, env):
+        Exception.__init__(self, 'captured return')
+        self.node, self.env = node, env
+
+
+class EnumClass:
+    """model of an enumeration class (enums.<Name>)"""
+    def __init__(self, name):
+        self.name = name
+
+    def __eq__(self, o):
+        return isinstance(o, EnumClass) and o.name == self.name
+
+    def __hash__(self):
+        return hash(('EnumClass', self.name))
+
+    def __repr__(self):
+        return 'enums.%s' % self.name
+
+
+TYPES = {'str': str, 'int': int, 'bytes': bytes, 'list': list, 'tuple': tuple, 'dict': dict, 'bool': bool, 'float': float, 'bytearray': bytearray, 'set': set, 'frozenset': frozenset}
+
+
 class Raised(Exception):
     def __init__(self, name, node):
         Exception.__init__(self, name)
@@ -109,6 +134,7 @@ class Folder:
         self.methods = dict(methods or {})      # name -> FunctionDef: `self.<name>(...)` is folded through (depth <= 6)
         self.depth = 0
         self.pick = 'lo'                        # how an AbsIdx is made concrete
+        self.capture_returns = False            # stop at the first return statement reached (Captured)
 
     def conc(self, v):
         if isinstance(v, AbsIdx):
@@ -157,6 +183,8 @@ class Folder:
                 return env[e.id]
             if e.id in ('True', 'False', 'None'):
                 return {'True': True, 'False': False, 'None': None}[e.id]
+            if e.id in TYPES:
+                return TYPES[e.id]
             raise Unfoldable('free name %s' % e.id)
         if isinstance(e, (ast.Tuple, ast.List)):
             vs = [self.ev(x, env) for x in e.elts]
@@ -220,11 +248,18 @@ class Folder:
                 if any(isinstance(x_, (AbsNum, SymInt)) for x_ in (lo, hi, st)):
                     raise Unfoldable('slice with an unknown bound')
                 return b[lo:hi:st]
+            if isinstance(b, EnumClass):
+                k_ = self.ev(e.slice, env)
+                if isinstance(k_, str):
+                    return Enum(b.name, k_)
+                raise Unfoldable('enumeration lookup by a non-string')
             try:
                 return b[self.conc(self.ev(e.slice, env))]
             except (KeyError, IndexError) as ex:
                 raise Raised(type(ex).__name__, e)
         if isinstance(e, ast.Attribute):
+            if isinstance(e.value, ast.Name) and e.value.id == 'enums' and 'enums' not in env and e.attr[:1].isupper() and not e.attr.isupper():
+                return EnumClass(e.attr)
             b = self.ev(e.value, env)
             if isinstance(b, (Version, Enum)) and hasattr(b, e.attr) and not e.attr.startswith('_'):
                 return getattr(b, e.attr)
@@ -280,7 +315,19 @@ class Folder:
             return self.models[name.split('.')[-1]](*args, **kw)
         if isinstance(e.func, ast.Name) and e.func.id in FUNCS and e.func.id not in env:
             if e.func.id == 'isinstance':
-                raise Unfoldable('isinstance')
+                v_, c_ = args
+                cs_ = c_ if isinstance(c_, tuple) else (c_,)
+                res_ = False
+                for k_ in cs_:
+                    if isinstance(k_, EnumClass):
+                        res_ = res_ or (isinstance(v_, Enum) and v_.cls == k_.name)
+                    elif isinstance(k_, type):
+                        if isinstance(v_, (Opaque, AbsNum, SymInt, AbsStr)):
+                            raise Unfoldable('isinstance of an abstract value')
+                        res_ = res_ or (isinstance(v_, k_) and not isinstance(v_, (Enum, Version, EnumClass)))
+                    else:
+                        raise Unfoldable('isinstance against %r' % (k_,))
+                return res_
             if any(isinstance(x, (AbsNum,)) for x in args) and e.func.id in ('int', 'abs', 'min', 'max'):
                 return AbsNum()
             try:
@@ -365,6 +412,8 @@ class Folder:
                     if r[0] != 'fall':
                         return r
             elif isinstance(s, ast.Return):
+                if self.capture_returns and self.depth == 0:
+                    raise Captured(s, dict(env))
                 return ('return', self.ev(s.value, env) if s.value is not None else None)
             elif isinstance(s, ast.Raise):
                 nm = None
